@@ -6,6 +6,8 @@ import (
 	"fmt"
 	"io"
 	"net"
+	"runtime"
+	"runtime/debug"
 	"sync"
 	"time"
 
@@ -33,7 +35,7 @@ type Opts struct {
 	ServerPort    int
 	HintMandatory bool
 	Quotas        map[string][]*appctlpb.Quota // optional per-user quotas
-	Net           *simnet.Net // optional existing network
+	Net           *simnet.Net                  // optional existing network
 }
 
 type Rig struct {
@@ -48,6 +50,10 @@ type Rig struct {
 func init() {
 	log.SetOutput(io.Discard)
 	log.SetLevel("FATAL")
+	// The Go 1.23 faketime runtime was seen to deadlock inside a garbage collection that starts while
+	// goroutines sleep on virtual timers (observed by the C01 driver: 2 hangs in 26 runs, none in 16 runs
+	// with this mitigation). Collect only between scenarios (StartServer), never during one.
+	debug.SetGCPercent(-1)
 }
 
 func (o *Opts) defaults() {
@@ -91,6 +97,7 @@ func (o *Opts) serverAddr() net.Addr {
 
 // StartServer starts only the server side.
 func StartServer(o Opts) (*Rig, error) {
+	runtime.GC()
 	o.defaults()
 	r := &Rig{Opts: o, Net: o.Net, Accepted: make(chan net.Conn, 1024)}
 	if r.Net == nil {
